@@ -11,6 +11,18 @@ DFS_VERBS = ("reach", "reachslice", "orreach", "xorreach")
 
 THEOREMS = {
     "Dawgs.Props.C15": [
+        "Dawgs.C15.Props.spec_bfs_is_reachability",
+        "Dawgs.C15.Props.sccCert_sound",
+        "Dawgs.C15.Props.tarjan_correct_partial",
+        "Dawgs.C15.Props.bidir_reachable_correct",
+        "Dawgs.C15.Props.reach_cache_exact_fixed",
+        "Dawgs.C15.Props.reach_cache_exact_refuted",
+        "Dawgs.C15.Props.reach_dfs_terminates",
+        "Dawgs.C15.Props.reach_answers_exact_fixed",
+        "Dawgs.C15.Props.answers_history_independent_fixed",
+        "Dawgs.C15.Props.answers_history_independent_refuted",
+        "Dawgs.C15.Props.reach_query_terminates_current",
+        "Dawgs.C15.Props.c15_full_refuted",
     ],
 }
 
